@@ -1,4 +1,5 @@
 import NodisVerif.Proofs.TxProgCS
+import NodisVerif.Proofs.TxProgPlan
 /-
   Program model of tx.go: reachable program states, their protocol abstraction, and concrete schedules
   (used as non-vacuity examples by Props/C05-C07).
